@@ -224,6 +224,25 @@ class FragmentFn:
         return [{'f': self.stage, 'x': x, 'part': p} for p in range(self.parts)]
 
 
+class ApplyShuffle:
+    """apply_fn for ds.apply(..., lazy=True): a user-level reshuffle with its
+    own seeded generator (the example of ApplyDataset's docstring)."""
+
+    def __init__(self, seed):
+        self.seed = seed
+        self.rng = np.random.RandomState(seed)
+        self.permutation = None
+
+    def __call__(self, ds):
+        if self.permutation is None:
+            self.permutation = np.arange(len(ds))
+        self.rng.shuffle(self.permutation)
+        return ds[self.permutation]
+
+    def __repr__(self):
+        return 'ApplyShuffle(%s)' % self.seed
+
+
 # ---------------------------------------------------- reference datasets
 class RefCatchDataset(ldc.Dataset):
     """Independent sequential meaning of prefetch(catch_filter_exception=E):
@@ -304,6 +323,8 @@ def apply_stage(ds, st, parallel=True):
     if op == 'local_shuffle':
         return ds.shuffle(True, rng=np.random.RandomState(st['seed']),
                           buffer_size=st['bs'])
+    if op == 'apply':
+        return ds.apply(ApplyShuffle(st['seed']), lazy=True)
     if op == 'sort':
         return ds.sort(KeyFn(st['id']), reverse=st.get('reverse', False))
     if op == 'cache':
